@@ -615,7 +615,7 @@ mapping_warnings = FunctionContract(
                           locals=dict(g_n0=TInt), ghost_pre="g_n0 = len(WARNED)",
                           ghost_end="if len(WARNED) > g_n0:\n    g_src.append(_i)\n    g_pos[_i] = len(g_src) - 1")},
     canary=[("if len(out_idxs) > 1 and not nx.is_connected(graph_out.subgraph(out_idxs)):", "if len(out_idxs) > 1 and nx.is_connected(graph_out.subgraph(out_idxs)):"),
-            ("if overlapping_mappings:", "if not overlapping_mappings:"),
+            ("if len(out_idxs) > 1 and", "if len(out_idxs) >= 1 and"),
             ("if len(out_idxs) > 1 and", "if len(out_idxs) > 2 and")],
 )
 CONTRACTS.append(mapping_warnings)
